@@ -88,5 +88,25 @@ Proof. intros Hj. unfold idft, dft.
   rewrite Csum_delta by assumption.
   assert (Hn : RtoC (INR n) <> 0). { intro K. apply RtoC_inj in K. apply (not_0_INR n); [lia|exact K]. }
   field. exact Hn. Qed.
+Hypothesis w_conj : Cconj w = wi.
+Lemma Cconj_mult (a b : C) : Cconj (a * b) = Cconj a * Cconj b.
+Proof. destruct a, b. unfold Cconj, Cmult; simpl. f_equal; ring. Qed.
+Lemma Cconj_plus (a b : C) : Cconj (a + b) = Cconj a + Cconj b.
+Proof. destruct a, b. unfold Cconj, Cplus; simpl. f_equal; ring. Qed.
+Lemma Cconj_sum m f : Cconj (Csum m f) = Csum m (fun i => Cconj (f i)).
+Proof. induction m as [|m IH]; simpl; [unfold Cconj, RtoC; simpl; f_equal; ring|]. rewrite Cconj_plus, IH. reflexivity. Qed.
+Lemma Cconj_pow z k : Cconj (Cpow z k) = Cpow (Cconj z) k.
+Proof. induction k as [|k IH]; simpl; [unfold Cconj, RtoC; simpl; f_equal; ring|]. rewrite Cconj_mult, IH. reflexivity. Qed.
+(* Parseval, complex form: sum_k U_k conj(U_k) = n * sum_j u_j conj(u_j) *)
+Theorem parseval u : Csum n (fun k => dft u k * Cconj (dft u k)) = INR n * Csum n (fun j => u j * Cconj (u j)).
+Proof. unfold dft.
+  rewrite (Csum_ext n _ (fun k => Csum n (fun j => Csum n (fun l => (u j * Cconj (u l)) * (Cpow w (j*k) * Cpow wi (l*k)))))).
+  2:{ intros k _. rewrite Cconj_sum. rewrite Cmult_comm, <- Csum_scal. apply Csum_ext. intros j _.
+      rewrite Cmult_comm, <- Csum_scal. apply Csum_ext. intros l _. rewrite Cconj_mult, Cconj_pow, w_conj. ring. }
+  rewrite Csum_switch. rewrite <- Csum_scal. apply Csum_ext. intros j Hj.
+  rewrite Csum_switch.
+  rewrite (Csum_ext n _ (fun l => if Nat.eqb l j then (u j * Cconj (u l)) * INR n else 0)).
+  2:{ intros l Hl. rewrite Csum_scal, ortho by assumption. rewrite (Nat.eqb_sym j l). destruct (Nat.eqb l j); ring. }
+  rewrite Csum_delta by assumption. ring. Qed.
 End DFT.
-Print Assumptions idft_dft.
+Print Assumptions parseval.
